@@ -17,6 +17,12 @@
  * ============================================================================
  */
 
+static int compare_boolean(const void* a, const void* b) {
+    uint8_t va = *(const uint8_t*)a;
+    uint8_t vb = *(const uint8_t*)b;
+    return (va > vb) - (va < vb);
+}
+
 static int compare_int32(const void* a, const void* b) {
     int32_t va = *(const int32_t*)a;
     int32_t vb = *(const int32_t*)b;
@@ -69,8 +75,9 @@ typedef int (*compare_fn_t)(const void*, const void*);
 
 static compare_fn_t get_compare_fn(carquet_physical_type_t type) {
     switch (type) {
-        case CARQUET_PHYSICAL_INT32:
         case CARQUET_PHYSICAL_BOOLEAN:
+            return compare_boolean;
+        case CARQUET_PHYSICAL_INT32:
             return compare_int32;
         case CARQUET_PHYSICAL_INT64:
             return compare_int64;
@@ -80,6 +87,18 @@ static compare_fn_t get_compare_fn(carquet_physical_type_t type) {
             return compare_double;
         default:
             return NULL;  /* Use byte comparison */
+    }
+}
+
+/* Number of bytes a typed comparison reads from each operand */
+static int32_t get_compare_width(carquet_physical_type_t type) {
+    switch (type) {
+        case CARQUET_PHYSICAL_BOOLEAN: return 1;
+        case CARQUET_PHYSICAL_INT32:   return 4;
+        case CARQUET_PHYSICAL_INT64:   return 8;
+        case CARQUET_PHYSICAL_FLOAT:   return 4;
+        case CARQUET_PHYSICAL_DOUBLE:  return 8;
+        default:                       return 0;
     }
 }
 
@@ -198,6 +217,14 @@ carquet_status_t carquet_reader_row_group_matches(
     int cmp_min, cmp_max;
 
     if (cmp_fn) {
+        /* A typed comparison reads whole values: a probe or bound of another
+         * size cannot be compared, so the row group cannot be ruled out */
+        int32_t width = get_compare_width(type);
+        if (value_size != width ||
+            stats.min_value_size != width ||
+            stats.max_value_size != width) {
+            return CARQUET_OK;
+        }
         /* No conclusion can be drawn from a NaN probe or a NaN bound */
         if (is_nan_value(type, value) ||
             is_nan_value(type, stats.min_value) ||
